@@ -98,7 +98,8 @@ def _quiet(f, *a, **kw):
 def run_tree(case, res):
     import EoN
     from scipy.linalg import expm
-    G, lab = gen.build_graph(case['graph'])
+    gdesc = gen.shuffle_desc(random.Random(case['seed'] + 5), case['graph']) if case['seed'] % 2 else case['graph']
+    G, lab = gen.build_graph(gdesc)
     n = case['graph']['n']
     tau, gamma = case['tau'], case['gamma']
     wm = case['wm']
@@ -128,7 +129,13 @@ def run_tree(case, res):
         exI.append(p @ isI)
         p = p @ P1
     exS, exI = np.array(exS).T, np.array(exI).T            # (n, T) in index order
-    nodelist = [lab(i) for i in range(n)]
+    # the caller's nodelist is in an arbitrary order, unrelated to the insertion order of G (which is shuffled as well)
+    rp = random.Random(case['seed'] + 11)
+    perm = list(range(n))
+    if case['seed'] % 3:
+        rp.shuffle(perm)
+    nodelist = [lab(i) for i in perm]
+    exS, exI = exS[perm], exI[perm]
     kw = dict(nodelist=nodelist, tmin=case['tmin'], tmax=case['tmin'] + case['tspan'], tcount=case['tcount'], return_full_data=True)
     if wm in ('edge', 'both'):
         kw['transmission_weight'] = simcase.TW
@@ -141,8 +148,8 @@ def run_tree(case, res):
         if name == 'SIR_pair_based_pure_IC':
             out, bad = _quiet(EoN.SIR_pair_based_pure_IC, G, tau, gamma, I0, initial_recovereds=(R0 or None), **kw)
         else:
-            Y0 = np.array([1.0 if i in case['I0'] else 0.0 for i in range(n)])
-            X0 = np.array([0.0 if (i in case['I0'] or i in case['R0']) else 1.0 for i in range(n)])
+            Y0 = np.array([1.0 if i in case['I0'] else 0.0 for i in perm])
+            X0 = np.array([0.0 if (i in case['I0'] or i in case['R0']) else 1.0 for i in perm])
             out, bad = _quiet(EoN.SIR_pair_based, G, tau, gamma, Y0=Y0, X0=X0, **kw)
     except Exception as e:
         viol(res, '%s|%s|exception:%s' % (name, wm, simcase.exc_key(e)), {'err': repr(e)[:200]})
